@@ -4,6 +4,26 @@ import json, os, subprocess
 ROOT = os.path.dirname(os.path.dirname(os.path.abspath(__file__)))
 
 CHECKS = {
+ "C05": dict(
+   text="Generated-input search against a count model: ~120k random (calendar, start date, operation, day count, flag) cases per quick run (2M thorough) covering add_bus_days, lag, bus_date_range and add_days, with day counts over the whole i8 range weighted to 0, +-1, +-2, +-127 and -128, business and non-business starts, plus an enumeration of all 256 day counts x both flags x three operations on sampled (built-in calendar, date) pairs. The oracle counts business days one at a time over the calendar's own predicates, applies the settlement roll in the direction of n, and asserts the inverse law and the error contract. Exploration only: it shows agreement on everything generated, not for every calendar.",
+   note="Trusts is_bus_day/is_settlement of the calendar (C06/C07). lag(non-business date, 0, settlement=true) is under-specified by the documentation; both readings are accepted.",
+   technique="property-based testing (proptest, shrinking) + bounded exhaustive enumeration against a day-by-day count model",
+   design="5/C05"),
+ "C06": dict(
+   text="Generated-input search with full-range oracles: each of ~3.2k cases per quick run (64k thorough) is a combination spec, a valid name string, an invalid string or an equality pair, and every combination / name / pair is evaluated on EVERY date of 1970-2200 (84 371 dates): business day = business day in every member, settlement day = business day in every settlement calendar, named == explicit combination of its parts, and library `==` (all 8 implemented kind pairings, both operand orders) == the harness's own full-range behavioural comparison. Equality operands are constructed to be behaviourally equal but structurally different, or different on a single date (including the first/last day of the range and settlement-only differences), which is where an early-exit or settlement-blind comparison would go wrong.",
+   note="For built-in members the built-in plain calendar itself is the 'part' (its content is C07's subject). Holiday sets of arbitrary members are at most ~60 dates.",
+   technique="property-based testing (proptest) with metamorphic equality pairs and a date-exhaustive all/any reference model",
+   design="5/C06"),
+ "C07": dict(
+   text="Exhaustive enumeration: every built-in calendar name x every date 1970-01-01..2200-12-31 (1.18M pairs), every calendar name in the get_calendar docstring (parsed at run time), and all nine shipped fixing histories (read at run time). The oracle is an independent re-implementation of the published rule scripts (pandas Holiday semantics: yearly reference date, weekday offsets, observance functions, start/end filters, Easter by the anonymous Gregorian algorithm cross-checked with Gauss's) on the harness's own Gregorian model: exact equivalence on weekdays for tgt, nyc, fed, ldn, stk, osl, zur; one-directional for the documented fixed-date / Easter-linked holidays of tro, tyo, syd, wlg, mum; no holidays for all/bus; fed == nyc minus Good Friday. The domain is finite and fully enumerated, so for the stated rules this is complete, not sampled.",
+   note="The oracle is my reading of the *_script.py rule definitions; only weekdays are compared, as the property states.",
+   technique="exhaustive enumeration against an independent rule-based reference model (data-table differential)",
+   design="5/C07"),
+ "C08": dict(
+   text="Generated-input search against own Gregorian arithmetic: ~300k random add_months cases per quick run (10M thorough) over all start days (weight on days 28-31, leap/century years), month offsets of both signs (small, whole years, exact January/December landings, uniform targets), every roll kind and day 1-31, all modifiers and flags, always landing in 1970-2200; the unadjusted date is computed as month index 12y+m with the day capped at the month length (third Wednesday for IMM) and then adjusted with the C04 reference walk. get_imm / get_eom / get_roll / is_leap_year for every (year, month) and is_imm / is_eom for every date of 1970-2200 are enumerated completely. Per-branch floors make sure every carry branch (total <= 0, = 12, >= 13) and day capping are hit.",
+   note="Adjustment after the month arithmetic is judged by the C04 reference walk; chrono's y/m/d is cross-checked against the civil model for every date in the range.",
+   technique="property-based testing (proptest, shrinking) + exhaustive side tables against an independent civil-calendar model",
+   design="5/C08"),
  "C04": dict(
    text="Generated-input search with an independent oracle: ~160k random (calendar, date, modifier, flag) cases per quick run (3M thorough) over plain, combined and named calendars with arbitrary week masks and holiday runs aimed at month/year ends and settlement-only closures, plus a sweep of every date x modifier x flag over the 14 built-in calendars and 6 typical combinations (30-year window quick, all of 1970-2200 thorough, where it is exhaustive). Each result is compared with a day-by-day reference walk; fixed-point and idempotence laws are asserted. Exploration cannot show absence for arbitrary user calendars, but the built-in sweep is complete.",
    note="Trusts the calendar object's own is_bus_day/is_settlement (decided by C06/C07); midnight timestamps only; holiday runs <= 12 days.",
